@@ -38,6 +38,7 @@ FIXED = {
     "fix: read partially defined CRC vectors as the format stores them": (["C06"], "partially defined folder/substream CRC vectors made the reader fail with 'end id expected'"),
     "fix: errors raised in worker processes (mp=True) reach the caller": (["C13", "C04"], "with mp=True a CRC error in a worker process was lost: damaged archive extracted 'successfully' with wrong bytes"),
     "fix: symlink members are checked against the links already extracted, not only lexically": (["C03"], "links 'a -> .' and 'a/b -> ..' let a later member 'b/x' be written outside the destination"),
+    "fix: every extracted entry is checked against the links already on disk, not only link targets": (["C03"], "dangling link 'b -> a/..' followed by 'a -> .' made a later member 'a/b/c' land outside the destination (found by the thorough tier's random 4-entry archives)"),
     "fix: test() stops reading at the end of the file": (["C05"], "test() iterated (declared pack size / block size) times over an exhausted file"),
     "fix: reject a file count the header cannot possibly describe": (["C05"], "41-byte archive declaring 2^31 files allocated one record per declared file"),
     "fix: do not feed the AES block padding to the next decoder": (["C01"], "Brotli+7zAES archives could not be read back (padding passed to the Brotli decoder)"),
